@@ -76,6 +76,10 @@ def gen_script(d, specs, dialect, weights=None, list_heavy=False, unresolved=Tru
             else:
                 items.append(['cmd', d.choice(['help', 'frobnicate', 'filter', 'breakpoint', 'connection', 'matcher wl_surface', 'h list', '', 'li'])])
         items.append(['line', wire.render(m, dialect), m['conn']])
+        blanks = [a[1] for a in m['args'] if a[0] == 'str' and a[1] and '  ' in a[1] and not set(a[1]) & set('"()[],!~')]
+        if blanks and d.chance(0.6):
+            # a string with a run of blanks just went by: ask for it by its text (the command line reaches the matcher blank for blank)
+            items.append(['cmd', d.choice(['list ', 'l  ', 'wl list ', 'list  ']) + d.choice(['("%s")', '.("%s")', '( "%s" )']) % d.choice(blanks) + d.choice(['', ' ~ 5'])])
         if unresolved and d.chance(0.08):
             # a message on an object the log never showed being created (recorded and listed like any other)
             sep = '@' if dialect == 'old' else '#'
